@@ -318,3 +318,5 @@ def neighbours(c, rng):
         d['sched'] = random_schedule(rng, c)
         out.append(d)
     return out
+
+K1_DEPENDS = ['c03_translate']   # source/runtime tables this property rests on (tools/vlib/runner.py)
